@@ -11,6 +11,7 @@ import PpciVerif.Spec.RelocSem
   rtarget <isa> <type> <hex> <P>     SPEC: address designated by the relocated bytes at P   → ok <int> | ok none
   rrep    <isa> <type> <S> <A> <P>   SPEC: representable                                    → ok true|false
   rhilo   <hexhi> <hexlo>            SPEC: value computed by a riscv hi/lo instruction pair → ok <int>
+  disjoint <isa> <type:sect:offset;…>  the decidable hypothesis of the list-level theorem: relocation sites pairwise disjoint → ok true|false
   roff    <isa> <type> <hex>         SPEC: the pc-relative offset the field encodes (what a disassembler prints) → ok <int>
 -/
 open Proto Model.Reloc Model.LinkReloc
@@ -44,6 +45,14 @@ def step (line : String) : String :=
             | some s => "ok " ++ toHex s.data
             | none => "bad-op"
     | _, _, _, _, _ => "bad-op"
+  | ["disjoint", isa, l] =>
+    let parse (x : String) : Option RelocEntry :=
+      match x.splitOn ":" with
+      | [ty, sect, off] => (nat? off).map (fun o => ⟨ty, 0, sect, o, 0⟩)
+      | _ => none
+    match (l.splitOn ";").mapM parse with
+    | some rs => if rs.all (fun r => (relocSize isa r.relocType).isSome) then "ok " ++ showB (sitesDisjoint isa rs) else "ok unknown-type"
+    | none => "bad-op"
   | ["rtarget", isa, name, h, p] =>
     match fromHex h, int? p with
     | some bs, some p =>
